@@ -234,6 +234,7 @@ func cmdDump(args []string) {
 	out := fs.String("out", "", "")
 	cold := fs.Bool("cold", false, "")
 	fs.Parse(args)
+	anchorSeed = mixSeed(*seed, uint64(*wk), 0xFFFFFFFF)
 	pf := planFile{Prop: *prop, Class: *class}
 	for i := 0; i <= *upto; i++ {
 		pf.Plans = append(pf.Plans, genPlanOpt(mixSeed(*seed, uint64(*wk), uint64(i)), *prop, *cold))
@@ -305,6 +306,7 @@ func cmdRun(args []string) {
 	if _, ok := propWeights[*prop]; !ok {
 		fatal("unknown property %q", *prop)
 	}
+	anchorSeed = mixSeed(*seed, uint64(*wk), 0xFFFFFFFF)
 	w := bufio.NewWriter(os.Stdout)
 	st := &workerStats{Type: "stats", Cold: *cold, Worker: *wk, Seed: *seed, Prop: *prop, Policies: map[string]int64{}, TaskHist: map[int]int64{}, Aborts: map[string]int64{}}
 	start := time.Now()
@@ -643,6 +645,7 @@ func cmdMin(args []string) {
 		if _, err := fmt.Sscanf(strings.ReplaceAll(*regen, ",", " "), "%s %s %d %d %d %d", &prop, &class, &seed, &wk, &upto, &cold); err != nil {
 			fatal("regen: %v", err)
 		}
+		anchorSeed = mixSeed(seed, uint64(wk), 0xFFFFFFFF)
 		pf = &planFile{Prop: prop, Class: class}
 		for i := 0; i <= upto; i++ {
 			pf.Plans = append(pf.Plans, genPlanOpt(mixSeed(seed, uint64(wk), uint64(i)), prop, cold != 0))
